@@ -9,6 +9,7 @@ package main
 import (
 	"go/token"
 	"go/types"
+	"strings"
 
 	"golang.org/x/tools/go/ssa"
 )
@@ -18,23 +19,97 @@ type c17kit struct {
 	c       *Ctx
 	pkg     *ssa.Package
 	T       *types.Named    // the compressing response writer
-	wIdx    int             // field of type io.Writer: the decided writer
-	gzIdx   int             // field of type *compress/gzip.Writer: the pooled writer
-	rwIdx   int             // field of type net/http.ResponseWriter: the wrapped writer
-	fns     []*ssa.Function // all functions and closures of the package
+	W       c17fkey         // the decided writer: the writer-typed field through which T.Write sends the body
+	RW      c17fkey         // field of T of type net/http.ResponseWriter: the wrapped writer
+	fns     []*ssa.Function // all functions and closures of the package (and of packages below it)
 	methods []*ssa.Function // declared methods of T
 	wh, wr  *ssa.Function   // T.WriteHeader, T.Write (interface methods of http.ResponseWriter)
+	stores  map[c17fkey][]*ssa.Store
+	flags   map[c17fkey]bool // decision flags (lazily, see decisionFlags)
+	types   []*types.Named   // named non-interface types of the region (lazily, see regionTypes)
+}
+
+// c17fkey names a field of a struct type of the region: the rules speak about "the decided writer" or "a field that
+// holds the pooled gzip writer" wherever that field lives (in the response writer itself, in a state struct nested in
+// it, in a small type that wraps the pooled writer).
+type c17fkey struct {
+	n   *types.Named
+	idx int
+}
+
+func (fk c17fkey) typ() types.Type {
+	if fk.n == nil {
+		return nil
+	}
+	return fk.n.Underlying().(*types.Struct).Field(fk.idx).Type()
 }
 
 const c17pkg = "proxy/gzip"
 
+// c17hasMethod: the method set of interface type t has a method of that name.
+func c17hasMethod(t types.Type, name string) bool {
+	it, ok := t.Underlying().(*types.Interface)
+	if !ok {
+		return false
+	}
+	for i := 0; i < it.NumMethods(); i++ {
+		if it.Method(i).Name() == name {
+			return true
+		}
+	}
+	return false
+}
+
+// c17writerIface: an interface type that can receive the body (has Write) but is not a ResponseWriter (no
+// WriteHeader): io.Writer, io.WriteCloser, a package-local interface embedding io.Writer ...
+func c17writerIface(t types.Type) bool {
+	return t != nil && c17hasMethod(t, "Write") && !c17hasMethod(t, "WriteHeader")
+}
+
+func c17respWriterIface(t types.Type) bool {
+	return t != nil && c17hasMethod(t, "Write") && c17hasMethod(t, "WriteHeader") && c17hasMethod(t, "Header")
+}
+
+func (k *c17kit) inRegion(f *ssa.Function) bool {
+	if f == nil {
+		return false
+	}
+	for f.Parent() != nil {
+		f = f.Parent()
+	}
+	var path string
+	switch {
+	case f.Pkg != nil:
+		path = f.Pkg.Pkg.Path()
+	case f.Object() != nil && f.Object().Pkg() != nil:
+		path = f.Object().Pkg().Path()
+	default:
+		return false
+	}
+	home := k.pkg.Pkg.Path()
+	return path == home || strings.HasPrefix(path, home+"/")
+}
+
+func (k *c17kit) inRegionType(n *types.Named) bool {
+	if n == nil || n.Obj() == nil || n.Obj().Pkg() == nil {
+		return false
+	}
+	home := k.pkg.Pkg.Path()
+	path := n.Obj().Pkg().Path()
+	return path == home || strings.HasPrefix(path, home+"/")
+}
+
 func c17resolve(c *Ctx) *c17kit {
-	k := &c17kit{c: c, pkg: c.spkg(c17pkg), wIdx: -1, gzIdx: -1, rwIdx: -1}
+	k := &c17kit{c: c, pkg: c.spkg(c17pkg)}
 	if k.pkg == nil {
 		c.undecided("C17.D1", "anchor|package proxy/gzip", "package not loaded")
 		return nil
 	}
-	k.fns = c.fnsWhere(c17pkg, func(*ssa.Function) bool { return true })
+	for _, f := range c.AllFns {
+		if k.inRegion(f) {
+			k.fns = append(k.fns, f)
+		}
+	}
 	// the type: a struct of the package that itself declares Write and WriteHeader
 	decl := map[*types.Named]map[string]*ssa.Function{}
 	for _, f := range k.fns {
@@ -69,23 +144,59 @@ func c17resolve(c *Ctx) *c17kit {
 			k.methods = append(k.methods, f)
 		}
 	}
-	st := k.T.Underlying().(*types.Struct)
-	uniq := func(want string) int {
-		idx, n := -1, 0
-		for i := 0; i < st.NumFields(); i++ {
-			if typeStr(st.Field(i).Type()) == want {
-				idx = i
-				n++
+	c17theKit = k
+	k.stores = map[c17fkey][]*ssa.Store{}
+	eachInstrOf(k.fns, func(_ *ssa.Function, i ssa.Instruction) {
+		if st, ok := i.(*ssa.Store); ok {
+			if _, isAddr := st.Addr.(*ssa.FieldAddr); isAddr {
+				if fk := k.fkey(st.Addr); fk.n != nil {
+					k.stores[fk] = append(k.stores[fk], st)
+				}
 			}
 		}
-		if n != 1 {
-			return -1
+	})
+	// the wrapped writer: the one field of T that is a ResponseWriter
+	st := k.T.Underlying().(*types.Struct)
+	nRW := 0
+	for i := 0; i < st.NumFields(); i++ {
+		if c17respWriterIface(st.Field(i).Type()) {
+			k.RW = c17fkey{k.T, i}
+			nRW++
 		}
-		return idx
 	}
-	k.wIdx, k.gzIdx, k.rwIdx = uniq("io.Writer"), uniq("*compress/gzip.Writer"), uniq("net/http.ResponseWriter")
-	if k.wIdx < 0 || k.gzIdx < 0 || k.rwIdx < 0 {
-		c.undecided("C17.T1", "anchor|fields of the compressing response writer", "expected exactly one field each of type io.Writer (decided writer), *gzip.Writer (pooled writer) and http.ResponseWriter (wrapped writer)")
+	// the decided writer: the writer-typed field (of T, or of a struct the package keeps T's state in) on which T.Write
+	// - or a same-package helper it calls - invokes Write
+	wcand := map[c17fkey]bool{}
+	eachInstrOf(c.region(k.wr), func(_ *ssa.Function, i ssa.Instruction) {
+		cc := callCommon(i)
+		if cc == nil || !cc.IsInvoke() || cc.Method.Name() != "Write" {
+			return
+		}
+		if fk := k.fkey(cc.Value); fk.n != nil && c17writerIface(fk.typ()) {
+			wcand[fk] = true
+		}
+		if phi, isPhi := cc.Value.(*ssa.Phi); isPhi {
+			for _, e := range phi.Edges {
+				if fk := k.fkey(e); fk.n != nil && c17writerIface(fk.typ()) {
+					wcand[fk] = true
+				}
+			}
+		}
+	})
+	if len(wcand) != 1 {
+		// T.Write may not use it directly: the one writer-typed field of T
+		wcand = map[c17fkey]bool{}
+		for i := 0; i < st.NumFields(); i++ {
+			if c17writerIface(st.Field(i).Type()) {
+				wcand[c17fkey{k.T, i}] = true
+			}
+		}
+	}
+	for fk := range wcand {
+		k.W = fk
+	}
+	if len(wcand) != 1 || nRW != 1 {
+		c.undecided("C17.T1", "anchor|fields of the compressing response writer", "expected exactly one writer-typed field (an interface with Write but without WriteHeader: the decided writer) that the response writer's Write sends the body through, and exactly one http.ResponseWriter field (wrapped writer)")
 		return nil
 	}
 	return k
@@ -106,26 +217,250 @@ func c17named(t types.Type) *types.Named {
 
 func (k *c17kit) isT(t types.Type) bool { return c17named(t) == k.T }
 
-// field: v is the address of / a load of field idx of a T; returns the index or -1.
-func (k *c17kit) field(v ssa.Value) int {
+// fkey: v is the address of / a load of / the extraction of a field of a struct type of the region; the zero key
+// otherwise.
+func (k *c17kit) fkey(v ssa.Value) c17fkey {
 	if u, ok := v.(*ssa.UnOp); ok && u.Op == token.MUL {
 		v = u.X
 	}
+	var base types.Type
+	idx := 0
 	switch x := v.(type) {
 	case *ssa.FieldAddr:
-		if k.isT(x.X.Type()) {
-			return x.Field
-		}
+		base, idx = x.X.Type(), x.Field
 	case *ssa.Field:
-		if k.isT(x.X.Type()) {
-			return x.Field
-		}
+		base, idx = x.X.Type(), x.Field
+	default:
+		return c17fkey{}
 	}
-	return -1
+	n := c17named(base)
+	if n == nil || !k.inRegionType(n) {
+		return c17fkey{}
+	}
+	if _, isStruct := n.Underlying().(*types.Struct); !isStruct {
+		return c17fkey{}
+	}
+	return c17fkey{n, idx}
 }
 
-func (k *c17kit) isW(v ssa.Value) bool  { return k.field(v) == k.wIdx }
-func (k *c17kit) isGz(v ssa.Value) bool { return k.field(v) == k.gzIdx }
+func (k *c17kit) isW(v ssa.Value) bool { return k.fkey(v) == k.W }
+
+// isWval: v is the decided writer: a load of the field, or a local copy of it (`w := grw.writer; if w == nil { ...;
+// w = grw.writer }`): every origin of v inside its function is a load of the field.
+func (k *c17kit) isWval(v ssa.Value) bool {
+	if k.isW(v) {
+		return true
+	}
+	if !c17writerIface(v.Type()) {
+		return false
+	}
+	seen := map[ssa.Value]bool{}
+	var all func(x ssa.Value, d int) bool
+	all = func(x ssa.Value, d int) bool {
+		if k.isW(x) {
+			return true
+		}
+		if seen[x] {
+			return true
+		}
+		seen[x] = true
+		if d > 6 {
+			return false
+		}
+		switch y := x.(type) {
+		case *ssa.Phi:
+			for _, e := range y.Edges {
+				if !all(e, d+1) {
+					return false
+				}
+			}
+			return len(y.Edges) > 0
+		case *ssa.ChangeInterface:
+			return all(y.X, d+1)
+		case *ssa.UnOp:
+			if a, ok := y.X.(*ssa.Alloc); ok && y.Op == token.MUL {
+				n := 0
+				for _, r := range *a.Referrers() {
+					if st, ok := r.(*ssa.Store); ok && st.Addr == a {
+						n++
+						if !all(st.Val, d+1) {
+							return false
+						}
+					}
+				}
+				return n > 0
+			}
+		}
+		return false
+	}
+	return all(v, 0)
+}
+func (k *c17kit) isRW(v ssa.Value) bool { return k.fkey(v) == k.RW }
+
+// isGz: a field (of any struct of the region) that holds a *gzip.Writer.
+func (k *c17kit) isGz(v ssa.Value) bool {
+	fk := k.fkey(v)
+	return fk.n != nil && c17isGzipType(fk.typ())
+}
+
+func c17isGzipType(t types.Type) bool { return t != nil && typeStr(t) == "*compress/gzip.Writer" }
+
+// holder: t is (a pointer to) a small struct type of the region, other than the response writer, that wraps a
+// writer: gz lists its *gzip.Writer fields, ws its writer-typed interface fields.
+func (k *c17kit) holder(t types.Type) (n *types.Named, gz, ws []int) {
+	n = c17named(t)
+	if n == nil || n == k.T || !k.inRegionType(n) {
+		return nil, nil, nil
+	}
+	st, ok := n.Underlying().(*types.Struct)
+	if !ok {
+		return nil, nil, nil
+	}
+	for i := 0; i < st.NumFields(); i++ {
+		ft := st.Field(i).Type()
+		switch {
+		case c17isGzipType(ft):
+			gz = append(gz, i)
+		case c17hasMethod(ft, "Write"):
+			ws = append(ws, i)
+		}
+	}
+	if len(gz) == 0 && len(ws) == 0 {
+		return nil, nil, nil
+	}
+	return n, gz, ws
+}
+
+// isGzipValue: v is the pooled gzip writer or a package-local wrapper around one (a struct with a *gzip.Writer field).
+func (k *c17kit) isGzipValue(v ssa.Value) bool {
+	if c17isGzipType(v.Type()) {
+		return true
+	}
+	_, gz, _ := k.holder(v.Type())
+	return len(gz) > 0
+}
+
+// gzLeaves: the *gzip.Writer values behind v (v itself, or what is stored into the gzip-writer fields of the wrapper
+// type v is an instance of), followed back until stop.
+func (k *c17kit) gzLeaves(v ssa.Value, stop func(ssa.Value) bool) []c17leaf {
+	var out []c17leaf
+	isWrapper := func(x ssa.Value) bool { _, gz, _ := k.holder(x.Type()); return len(gz) > 0 }
+	for _, l := range k.origins(v, func(x ssa.Value) bool { return stop(x) || isWrapper(x) }) {
+		n, gz, _ := k.holder(l.v.Type())
+		if stop(l.v) || len(gz) == 0 {
+			out = append(out, l)
+			continue
+		}
+		for _, idx := range gz {
+			sts := k.stores[c17fkey{n, idx}]
+			if len(sts) == 0 {
+				out = append(out, l) // a wrapper whose gzip writer is never set
+			}
+			for _, st := range sts {
+				for _, m := range k.origins(st.Val, stop) {
+					if m.b == nil {
+						m.b = st.Block()
+					}
+					out = append(out, m)
+				}
+			}
+		}
+	}
+	return out
+}
+
+// alwaysSet: every instance of the struct type that is created in the region has field fk assigned (not nil) where it
+// is created, and the zero value of the type is never used: a load of the field cannot yield nil.
+func (k *c17kit) alwaysSet(fk c17fkey) bool { return k.alwaysAssigned(fk, false) }
+
+// alwaysSetAny: like alwaysSet, for a field whose zero value is meaningful (a boolean verdict): every instance created
+// in the region has the field assigned explicitly.
+func (k *c17kit) alwaysSetAny(fk c17fkey) bool { return k.alwaysAssigned(fk, true) }
+
+func (k *c17kit) alwaysAssigned(fk c17fkey, zeroOK bool) bool {
+	if fk.n == nil {
+		return false
+	}
+	ok, n := true, 0
+	eachInstrOf(k.fns, func(f *ssa.Function, i ssa.Instruction) {
+		if a, isA := i.(*ssa.Alloc); isA {
+			if p, isP := a.Type().Underlying().(*types.Pointer); isP && c17namedExact(p.Elem()) == fk.n {
+				n++
+				if !k.allocAssigns(f, a, fk.idx, zeroOK) {
+					ok = false
+				}
+			}
+		}
+		for _, op := range i.Operands(nil) {
+			if op == nil || *op == nil {
+				continue
+			}
+			if cst, isC := (*op).(*ssa.Const); isC && c17namedExact(cst.Type()) == fk.n {
+				ok = false // the zero value of the struct
+			}
+		}
+	})
+	if !zeroOK {
+		for _, st := range k.stores[fk] {
+			if isNilConst(st.Val) {
+				ok = false
+			}
+		}
+	}
+	return ok && n > 0
+}
+
+// allocAssigns: the struct allocated by a has field idx assigned before the struct is used as a whole (loaded, handed
+// on, returned): by a store through the field's address, or because the whole struct is copied from an existing
+// instance (a value receiver or a helper's result spilled to a local).
+func (k *c17kit) allocAssigns(f *ssa.Function, a *ssa.Alloc, idx int, zeroOK bool) bool {
+	sets := map[ssa.Instruction]bool{}
+	var uses []ssa.Instruction
+	for _, r := range *a.Referrers() {
+		switch x := r.(type) {
+		case *ssa.Store:
+			if x.Addr == a {
+				if _, isC := x.Val.(*ssa.Const); !isC {
+					sets[x] = true
+				}
+				continue
+			}
+			uses = append(uses, r)
+		case *ssa.FieldAddr:
+			if x.X != a || x.Referrers() == nil {
+				continue
+			}
+			for _, rr := range *x.Referrers() {
+				st, isSt := rr.(*ssa.Store)
+				switch {
+				case isSt && st.Addr == x && x.Field == idx && (zeroOK || !isNilConst(st.Val)):
+					sets[st] = true
+				case isSt && st.Addr == x:
+				case x.Field == idx:
+					uses = append(uses, rr) // a read of the field
+				}
+			}
+		case *ssa.DebugRef:
+		default:
+			uses = append(uses, r)
+		}
+	}
+	if len(sets) == 0 {
+		return false
+	}
+	for _, u := range uses {
+		if u.Block() != nil && pathAvoiding(a, u, func(i ssa.Instruction) bool { return sets[i] }) {
+			return false
+		}
+	}
+	return true
+}
+
+// c17namedExact: t itself (not a pointer to it) is a named type.
+func c17namedExact(t types.Type) *types.Named {
+	n, _ := types.Unalias(t).(*types.Named)
+	return n
+}
 
 // c17closed: every call of fn is a static call site that we can see. fabio is a closed program, so - unlike
 // onlyStaticallyCalled - an exported name does not disqualify a function: what matters is that it is never used as a
@@ -236,6 +571,9 @@ func c17implies(v ssa.Value, truth bool, at *ssa.BasicBlock, atom c17atom, depth
 		if x.Op == token.NOT {
 			return c17implies(x.X, !truth, nil, atom, depth+1)
 		}
+		if x.Op == token.MUL {
+			return c17impliesStored(v, truth, atom, depth)
+		}
 	case *ssa.BinOp:
 		if x.Op == token.EQL || x.Op == token.NEQ {
 			for _, p := range [][2]ssa.Value{{x.X, x.Y}, {x.Y, x.X}} {
@@ -265,6 +603,28 @@ func c17implies(v ssa.Value, truth bool, at *ssa.BasicBlock, atom c17atom, depth
 			}
 		}
 		return true
+	case *ssa.Field:
+		return c17impliesStored(v, truth, atom, depth)
+	case *ssa.Extract:
+		// one of several results of a repository helper (`ok, reason := compressable(h)`)
+		call, isCall := x.Tuple.(*ssa.Call)
+		if !isCall {
+			return false
+		}
+		sc := call.Call.StaticCallee()
+		if sc == nil || !isRepoFn(sc) || len(sc.Blocks) == 0 {
+			return false
+		}
+		n, all := 0, true
+		eachInstr(sc, func(i ssa.Instruction) {
+			if r, ok := i.(*ssa.Return); ok && x.Index < len(r.Results) {
+				n++
+				if !c17implies(r.Results[x.Index], truth, r.Block(), atom, depth+1) {
+					all = false
+				}
+			}
+		})
+		return n > 0 && all
 	case *ssa.Call:
 		sc := x.Call.StaticCallee()
 		if sc == nil || !isRepoFn(sc) || len(sc.Blocks) == 0 || sc.Signature.Results().Len() != 1 {
@@ -283,6 +643,38 @@ func c17implies(v ssa.Value, truth bool, at *ssa.BasicBlock, atom c17atom, depth
 	}
 	return false
 }
+
+// c17impliesStored: v reads a boolean field of a struct of the repository (a verdict carried in a small result /
+// state struct): every value ever stored into that field that can be truth implies the atom where it is stored.
+func c17impliesStored(v ssa.Value, truth bool, atom c17atom, depth int) bool {
+	k := c17theKit
+	if k == nil {
+		return false
+	}
+	fk := k.fkey(v)
+	if fk.n == nil || len(k.stores[fk]) == 0 {
+		return false
+	}
+	if b, ok := fk.typ().Underlying().(*types.Basic); !ok || b.Kind() != types.Bool {
+		return false
+	}
+	if truth == false {
+		// the zero value of the field is false without any store: only a struct that is always assigned counts
+		if !k.alwaysSetAny(fk) {
+			return false
+		}
+	}
+	for _, st := range k.stores[fk] {
+		if !c17implies(st.Val, truth, st.Block(), atom, depth+1) {
+			return false
+		}
+	}
+	return true
+}
+
+// c17theKit: the anchors of the current run (the atoms are plain functions of a value; the few places that need the
+// field tables reach them here).
+var c17theKit *c17kit
 
 type c17phiKey struct {
 	p     *ssa.Phi
@@ -382,27 +774,112 @@ func (k *c17kit) atomAcceptsGzip(v ssa.Value, truth bool) bool {
 
 // atomTypeMatches: the configured expression matches the response's Content-Type.
 func (k *c17kit) atomTypeMatches(v ssa.Value, truth bool) bool {
-	call, ok := v.(*ssa.Call)
-	if !ok || !truth {
-		return false
-	}
-	switch calleeName(&call.Call) {
-	case "(*regexp.Regexp).MatchString", "(*regexp.Regexp).Match":
-	default:
-		return false
-	}
-	if len(call.Call.Args) != 2 || !c17fromHeader(call.Call.Args[1], "Content-Type", false) {
-		return false
-	}
-	// the expression is the configured one: a *regexp.Regexp field of the response writer, or handed in from outside -
-	// not a package variable or an expression compiled on the spot
-	return derives(call.Call.Args[0], func(w ssa.Value) bool {
+	return truth && k.matchVerdict(v, func(s ssa.Value) bool { return c17fromHeader(s, "Content-Type", false) }, 0)
+}
+
+func c17isRegexpMatch(name string) bool {
+	return name == "(*regexp.Regexp).MatchString" || name == "(*regexp.Regexp).Match"
+}
+
+// configuredExpr: the expression is the configured one: kept in a field of the response writer (or of a struct of the
+// package), or handed in from outside - not a package variable or an expression compiled on the spot.
+func (k *c17kit) configuredExpr(e ssa.Value) bool {
+	return derives(e, func(w ssa.Value) bool {
 		switch w.(type) {
 		case *ssa.Parameter, *ssa.FreeVar:
 			return true
 		}
-		return k.field(w) >= 0
+		return k.fkey(w).n != nil
 	})
+}
+
+// matchVerdict: v is the verdict of matching a subject string against the configured expression. The match may be
+// spelled as a call of (*regexp.Regexp).MatchString|Match, as a call through an interface that the expression was
+// stored into, or as a call of a function value: the bound method value expr.MatchString, or a repository function /
+// closure all of whose `true` returns are such a verdict about its parameter.
+func (k *c17kit) matchVerdict(v ssa.Value, subject func(ssa.Value) bool, depth int) bool {
+	call, ok := v.(*ssa.Call)
+	if !ok || depth > 3 {
+		return false
+	}
+	cc := &call.Call
+	if cc.IsInvoke() {
+		if n := cc.Method.Name(); (n != "MatchString" && n != "Match") || len(cc.Args) != 1 || !subject(cc.Args[0]) {
+			return false
+		}
+		isRe := func(x ssa.Value) bool { return typeStr(x.Type()) == "*regexp.Regexp" }
+		ls := k.origins(cc.Value, isRe)
+		for _, l := range ls {
+			if !isRe(l.v) || !k.configuredExpr(l.v) {
+				return false
+			}
+		}
+		return len(ls) > 0
+	}
+	if c17isRegexpMatch(calleeName(cc)) {
+		return len(cc.Args) == 2 && subject(cc.Args[1]) && k.configuredExpr(cc.Args[0])
+	}
+	if cc.StaticCallee() != nil {
+		return false // a repository helper: c17implies looks at its returns
+	}
+	// a function value
+	ls := k.origins(cc.Value, c17isFuncValue)
+	for _, l := range ls {
+		var fn *ssa.Function
+		var bind []ssa.Value
+		switch x := l.v.(type) {
+		case *ssa.MakeClosure:
+			fn, _ = x.Fn.(*ssa.Function)
+			bind = x.Bindings
+		case *ssa.Function:
+			fn = x
+		}
+		if fn == nil {
+			return false
+		}
+		if strings.HasPrefix(fn.Synthetic, "bound method wrapper") {
+			if !c17isRegexpMatch(funcName(fn)) || len(bind) != 1 || !k.configuredExpr(bind[0]) || len(cc.Args) != 1 || !subject(cc.Args[0]) {
+				return false
+			}
+			continue
+		}
+		if fn.Synthetic != "" || !isRepoFn(fn) || len(fn.Blocks) == 0 || fn.Signature.Results().Len() != 1 {
+			return false
+		}
+		// the parameters that receive the subject
+		subj := map[ssa.Value]bool{}
+		for j, a := range cc.Args {
+			if j < len(fn.Params) && subject(a) {
+				subj[fn.Params[j]] = true
+			}
+		}
+		if len(subj) == 0 {
+			return false
+		}
+		inner := func(w ssa.Value, truth bool) bool {
+			return truth && k.matchVerdict(w, func(s ssa.Value) bool {
+				for _, m := range k.origins(s, func(x ssa.Value) bool { return subj[x] }) {
+					if !subj[m.v] {
+						return false
+					}
+				}
+				return true
+			}, depth+1)
+		}
+		n, all := 0, true
+		eachInstr(fn, func(i ssa.Instruction) {
+			if r, isR := i.(*ssa.Return); isR && len(r.Results) == 1 {
+				n++
+				if !c17implies(r.Results[0], true, r.Block(), inner, 0) {
+					all = false
+				}
+			}
+		})
+		if n == 0 || !all {
+			return false
+		}
+	}
+	return len(ls) > 0
 }
 
 // atomNotEncoded: the response carries no Content-Encoding yet.
@@ -515,20 +992,76 @@ func (k *c17kit) origins(v ssa.Value, stop func(ssa.Value) bool) []c17leaf {
 				}
 				return
 			}
-			if idx := k.field(x); idx >= 0 {
+			if fk := k.fkey(x); fk.n != nil {
 				n := 0
-				eachInstrOf(k.fns, func(_ *ssa.Function, i ssa.Instruction) {
-					if st, ok := i.(*ssa.Store); ok && k.field(st.Addr) == idx {
-						if _, isAddr := st.Addr.(*ssa.FieldAddr); isAddr && !isNilConst(st.Val) {
-							n++
-							walk(st.Val, st.Block(), d+1)
-						}
+				for _, st := range k.stores[fk] {
+					if !isNilConst(st.Val) {
+						n++
+						walk(st.Val, st.Block(), d+1)
 					}
-				})
+				}
 				if n == 0 {
 					leaf(v, from)
 				}
 				return
+			}
+			if fv, ok := x.X.(*ssa.FreeVar); ok {
+				// a captured variable (captured by reference): what is stored into the cell by the function that made
+				// the closure and by the closure itself
+				fn := fv.Parent()
+				idx := -1
+				for i, f := range fn.FreeVars {
+					if f == fv {
+						idx = i
+					}
+				}
+				n, opaque := 0, false
+				if fv.Referrers() != nil {
+					for _, r := range *fv.Referrers() {
+						if st, ok := r.(*ssa.Store); ok && st.Addr == fv {
+							n++
+							walk(st.Val, st.Block(), d+1)
+						}
+					}
+				}
+				if fn.Parent() != nil {
+					eachInstr(fn.Parent(), func(i ssa.Instruction) {
+						mc, ok := i.(*ssa.MakeClosure)
+						if !ok || mc.Fn != fn || idx < 0 || idx >= len(mc.Bindings) {
+							return
+						}
+						a, isA := mc.Bindings[idx].(*ssa.Alloc)
+						if !isA {
+							opaque = true
+							return
+						}
+						for _, r := range *a.Referrers() {
+							if st, ok := r.(*ssa.Store); ok && st.Addr == a {
+								n++
+								walk(st.Val, st.Block(), d+1)
+							}
+						}
+					})
+				}
+				if n == 0 || opaque {
+					leaf(v, from)
+				}
+				return
+			}
+			leaf(v, from)
+		case *ssa.Field:
+			// a field of a struct VALUE (a value receiver, a struct returned by a helper): what is stored into that field
+			if fk := k.fkey(x); fk.n != nil {
+				n := 0
+				for _, st := range k.stores[fk] {
+					if !isNilConst(st.Val) {
+						n++
+						walk(st.Val, st.Block(), d+1)
+					}
+				}
+				if n > 0 {
+					return
+				}
 			}
 			leaf(v, from)
 		case *ssa.Call:
